@@ -445,7 +445,7 @@ def engine_checks(out, tier, repo, names=None):
     # the definitional axioms of the spec functions hold in the intended (exact-arithmetic) model
     try:
         from . import axiomcheck
-        ax = axiomcheck.run(build_registry())
+        ax = axiomcheck.run(build_registry(), repo)
         out["axiom_model_check"] = ax
         if ax["failures"]:
             out["engine_error"] = "spec-function axiom does not hold in its intended model: %s" % ax["failures"][0][:300]
